@@ -32,7 +32,7 @@ Verdicts(c) ==
                IN (IF Len(evs) = want THEN {}
                    ELSE {<<IF Len(evs) > want THEN "WrongReceiverObserved" ELSE "ReceiverMissed",
                            IF Len(evs) = mwant THEN "mech" ELSE "other">>}) \cup
-                  (IF c.path \in {"enter", "external"} \/ \A k \in DOMAIN evs : (c.method = "prop" \/ evs[k].v = ExpectedV(c, i))
+                  (IF c.path \in {"enter", "external"} \/ \A k \in DOMAIN evs : (c.method = "prop" \/ c.path = "selffocus" \/ evs[k].v = ExpectedV(c, i))
                                             /\ (c.target \in Classes \/ evs[k].self = (IF c.method = "tree" THEN c.target ELSE c.calls[i]))
                    THEN {} ELSE {<<"EventContent", "">>})
              : i \in DOMAIN c.calls }
